@@ -95,9 +95,44 @@ Proof.
       pose proof (show_bitem_len (BClass k)). rewrite IH by (try assumption; lia). now rewrite <- !app_assoc.
 Qed.
 
+(* the optional "-" that ends the list *)
+Definition mtext (mi : bool) : list nat := if mi then [ch_minus] else [].
+Definition mnitem (mi : bool) : list bitem := if mi then [BChar ch_minus] else [].
+Definition rtext (rb : bool) : list nat := if rb then [ch_rb] else [].
+Definition rbitem (rb : bool) : list bitem := if rb then [BChar ch_rb] else [].
+
+Lemma scan_body_sfx : forall items mi fuel expr rest, forallb wf_bitem items = true ->
+  length (show_body items ++ mtext mi ++ ch_rb :: rest) < fuel ->
+  scan_bracket fuel (show_body items ++ mtext mi ++ ch_rb :: rest) expr = Some (expr ++ show_body items ++ mtext mi ++ [ch_rb], rest).
+Proof.
+  induction items as [|b items IH]; intros mi fuel expr rest Hwf Hf.
+  - cbn [show_body map concat app] in *. destruct mi; cbn [mtext app length] in *.
+    + destruct fuel; [lia|]. rewrite scan_plain by reflexivity. destruct fuel; [lia|]. cbn [scan_bracket]. rewrite Nat.eqb_refl.
+      now rewrite <- app_assoc.
+    + destruct fuel; [lia|]. cbn [scan_bracket]. now rewrite Nat.eqb_refl.
+  - cbn [forallb] in Hwf. apply andb_true_iff in Hwf as [Hb Hwf].
+    unfold show_body in *. cbn [map concat] in *. rewrite <- !app_assoc in *. rewrite app_length in Hf.
+    destruct b as [c|lo hi|k]; cbn [wf_bitem] in Hb.
+    + destruct (plain_facts c Hb) as (H1 & H2 & _). cbn [show_bitem app length] in *.
+      destruct fuel; [lia|]. rewrite scan_plain by assumption. rewrite IH by (try assumption; lia).
+      now rewrite <- app_assoc.
+    + apply andb_true_iff in Hb as [Hb _]. apply andb_true_iff in Hb as [Hlo Hhi].
+      destruct (plain_facts lo Hlo) as (L1 & L2 & _). destruct (plain_facts hi Hhi) as (H1 & H2 & _).
+      cbn [show_bitem app length] in *.
+      destruct fuel; [lia|]. rewrite scan_plain by assumption.
+      destruct fuel; [lia|]. rewrite scan_plain by reflexivity.
+      destruct fuel; [lia|]. rewrite scan_plain by assumption.
+      rewrite IH by (try assumption; lia). now rewrite <- !app_assoc.
+    + apply andb_true_iff in Hb as [Hb Hb1]. apply andb_true_iff in Hb as [Hb Hb7]. apply Nat.ltb_lt in Hb.
+      apply negb_true_iff, Nat.eqb_neq in Hb7. apply negb_true_iff, Nat.eqb_neq in Hb1.
+      destruct fuel; [lia|]. rewrite scan_class by assumption.
+      pose proof (show_bitem_len (BClass k)). rewrite IH by (try assumption; lia). now rewrite <- !app_assoc.
+Qed.
+
 (* ---- Oniguruma's reading of the same body ---- *)
-(* the first character of what follows an item is never "-" *)
-Definition no_minus (tail : list nat) : Prop := match tail with m :: _ => (m =? ch_minus) = false | [] => True end.
+(* what follows an item never makes it the start of a range: it does not begin with "-", or that "-" is the last member *)
+Definition ok_tail (tail : list nat) : Prop :=
+  match tail with m :: n :: _ => (m =? ch_minus) = false \/ (n =? ch_rb) = true | _ => True end.
 
 Lemma item_head b : wf_bitem b = true ->
   exists c t, show_bitem b = c :: t /\ (c =? ch_rb) = false /\ (c =? ch_minus) = false.
@@ -108,22 +143,30 @@ Proof.
   - exists ch_lb. eexists. split; [reflexivity|]. split; reflexivity.
 Qed.
 
-Lemma body_no_minus items rest : forallb wf_bitem items = true -> no_minus (show_body items ++ ch_rb :: rest).
+Lemma mtail_ok mi rest : ok_tail (mtext mi ++ ch_rb :: rest).
+Proof. destruct mi; cbn; [now right|]. destruct rest; [exact Logic.I|now left]. Qed.
+
+Lemma body_ok_tail items mi rest : forallb wf_bitem items = true -> ok_tail (show_body items ++ mtext mi ++ ch_rb :: rest).
 Proof.
-  destruct items as [|b items]; intros H; [reflexivity|]. cbn [forallb] in H. apply andb_true_iff in H as [Hb _].
-  destruct (item_head b Hb) as (c & t & E & _ & Hm). unfold show_body. cbn [map concat]. rewrite E. exact Hm.
+  destruct items as [|b items]; intros H; [apply mtail_ok|]. cbn [forallb] in H. apply andb_true_iff in H as [Hb _].
+  destruct (item_head b Hb) as (c & t & E & _ & Hm). unfold show_body. cbn [map concat]. rewrite E. cbn [app ok_tail].
+  match goal with |- match ?l with _ => _ end => destruct l end; [exact Logic.I|now left].
 Qed.
 
-Lemma after_item {X} tail (a b : X) : no_minus tail ->
+Lemma after_item {X} tail (a b : X) : ok_tail tail ->
   match tail with m :: n :: _ => if (m =? ch_minus) && negb (n =? ch_rb) then a else b | _ => b end = b.
-Proof. destruct tail as [|m [|n t]]; cbn; intros H; [reflexivity|reflexivity|]. now rewrite H. Qed.
+Proof.
+  destruct tail as [|m [|n t]]; cbn; intros H; [reflexivity|reflexivity|]. destruct H as [H|H]; rewrite H; [reflexivity|].
+  now rewrite andb_false_r.
+Qed.
 
-Lemma cc_step b f first acc tail : wf_bitem b = true -> no_minus tail ->
+Lemma cc_step b f first acc tail : wf_bitem b = true -> ok_tail tail ->
   cc_items (S f) (show_bitem b ++ tail) first acc = cc_items f tail false (acc ++ [b]).
 Proof.
   intros Hb Ht. destruct b as [c|lo hi|k]; cbn [wf_bitem] in Hb.
   - destruct (plain_facts c Hb) as (H1 & H2 & _). cbn [show_bitem app cc_items]. rewrite H1, H2. cbn [andb].
-    destruct tail as [|m [|hi s2]]; try reflexivity. cbn in Ht. now rewrite Ht.
+    destruct tail as [|m [|hi s2]]; try reflexivity. cbn in Ht. destruct Ht as [H|H]; rewrite H; [reflexivity|].
+    now rewrite andb_false_r.
   - apply andb_true_iff in Hb as [Hb Hle]. apply andb_true_iff in Hb as [Hlo Hhi].
     destruct (plain_facts lo Hlo) as (L1 & L2 & _). destruct (plain_facts hi Hhi) as (H1 & H2 & _).
     cbn [show_bitem app cc_items]. rewrite L1, L2. cbn [andb].
@@ -139,15 +182,36 @@ Proof.
     cbn [andb]. rewrite take_class_name by exact Hn. cbn [app]. rewrite Hc. apply after_item. exact Ht.
 Qed.
 
-Lemma cc_body : forall items f acc rest, forallb wf_bitem items = true -> length items < f ->
-  cc_items f (show_body items ++ ch_rb :: rest) false acc = CCOk false (acc ++ items) rest.
+(* a "]" that stands first is a member *)
+Lemma cc_first_rb f acc tail : ok_tail tail ->
+  cc_items (S f) (ch_rb :: tail) true acc = cc_items f tail false (acc ++ [BChar ch_rb]).
 Proof.
-  induction items as [|b items IH]; intros f acc rest Hwf Hf.
-  - destruct f; [lia|]. cbn. now rewrite app_nil_r.
+  intros Ht. cbn [cc_items]. rewrite Nat.eqb_refl. cbn [negb andb]. change (ch_rb =? ch_lb) with false. cbn [andb].
+  destruct tail as [|m [|hi s2]]; try reflexivity. cbn in Ht. destruct Ht as [H|H]; rewrite H; [reflexivity|].
+  now rewrite andb_false_r.
+Qed.
+(* the end of the list: an optional "-" and the closing "]" *)
+Lemma cc_end mi f first acc rest : length (mnitem mi) < f ->
+  cc_items f (mtext mi ++ ch_rb :: rest) (first && mi) acc = CCOk false (acc ++ mnitem mi) rest.
+Proof.
+  destruct mi; cbn [mtext mnitem app length]; intros Hf.
+  - destruct f as [|[|f]]; try lia.
+    rewrite andb_true_r. cbn [cc_items]. change (ch_minus =? ch_rb) with false. change (ch_minus =? ch_lb) with false. cbn [andb].
+    destruct rest as [|n rest']; cbn [cc_items]; rewrite ?Nat.eqb_refl; cbn [negb andb]; try reflexivity;
+      change (ch_rb =? ch_minus) with false; cbn [andb]; rewrite ?Nat.eqb_refl; reflexivity.
+  - destruct f; [lia|]. rewrite andb_false_r. cbn [cc_items]. rewrite Nat.eqb_refl. cbn. now rewrite app_nil_r.
+Qed.
+
+Lemma cc_body_sfx : forall items mi f acc rest, forallb wf_bitem items = true -> length items + length (mnitem mi) < f ->
+  cc_items f (show_body items ++ mtext mi ++ ch_rb :: rest) false acc = CCOk false (acc ++ items ++ mnitem mi) rest.
+Proof.
+  induction items as [|b items IH]; intros mi f acc rest Hwf Hf.
+  - cbn [show_body map concat app length] in *.
+    pose proof (cc_end mi f false acc rest Hf) as H. cbn [andb] in H. exact H.
   - destruct f; [cbn in Hf; lia|]. cbn [forallb] in Hwf. apply andb_true_iff in Hwf as [Hb Hwf].
     unfold show_body. cbn [map concat]. rewrite <- app_assoc. fold (show_body items).
-    rewrite cc_step by (try assumption; now apply body_no_minus).
-    rewrite IH by (try assumption; cbn in Hf; lia). now rewrite <- app_assoc.
+    rewrite cc_step by (try assumption; now apply body_ok_tail).
+    rewrite IH by (try assumption; cbn in Hf; lia). now rewrite <- !app_assoc.
 Qed.
 
 Lemma body_len items : length items <= length (show_body items).
@@ -156,52 +220,147 @@ Proof.
   pose proof (show_bitem_len b). lia.
 Qed.
 
+(* the shape of a well-formed member list *)
+Lemma rev_cons_eq {A} (l : list A) x r : rev l = x :: r -> l = rev r ++ [x].
+Proof. intros H. rewrite <- (rev_involutive l), H. reflexivity. Qed.
+Lemma wf_bracket_shape neg items : wf_item (GBr neg items) = true ->
+  exists rb mid mi, items = rbitem rb ++ mid ++ mnitem mi /\ forallb wf_bitem mid = true /\ items <> [].
+Proof.
+  cbn [wf_item]. intros H. apply andb_true_iff in H as [Hwf Hfirst].
+  assert (Hne : items <> []) by (destruct items; [discriminate|discriminate]).
+  assert (S1 : exists rb i1, items = rbitem rb ++ i1 /\ snd (strip_first_rb items) = i1).
+  { unfold strip_first_rb. destruct items as [|[c|lo hi|k] r]; try (exists false; eexists; split; reflexivity).
+    destruct (Nat.eqb_spec c ch_rb) as [->|_]; [exists true|exists false]; eexists; split; reflexivity. }
+  destruct S1 as (rb & i1 & E1 & Es1). rewrite Es1 in Hwf.
+  assert (S2 : exists mi mid, i1 = mid ++ mnitem mi /\ snd (strip_last_minus i1) = mid).
+  { unfold strip_last_minus. destruct (rev i1) as [|[c|lo hi|k] r] eqn:Er;
+      try (exists false, i1; split; [cbn; now rewrite app_nil_r|reflexivity]).
+    destruct (Nat.eqb_spec c ch_minus) as [->|_].
+    - exists true, (rev r). split; [now apply rev_cons_eq|reflexivity].
+    - exists false, i1. split; [cbn; now rewrite app_nil_r|reflexivity]. }
+  destruct S2 as (mi & mid & E2 & Es2). rewrite Es2 in Hwf.
+  exists rb, mid, mi. rewrite E2 in E1. repeat split; assumption.
+Qed.
+
+Lemma show_body_app a b : show_body (a ++ b) = show_body a ++ show_body b.
+Proof. unfold show_body. now rewrite map_app, concat_app. Qed.
+Lemma show_ritem rb : show_body (rbitem rb) = rtext rb.
+Proof. destruct rb; reflexivity. Qed.
+Lemma show_mitem mi : show_body (mnitem mi) = mtext mi.
+Proof. destruct mi; reflexivity. Qed.
+
 (* the whole bracket, as Oniguruma reads it after "[" *)
+Lemma cc_list rb mid mi rest acc f : forallb wf_bitem mid = true -> rbitem rb ++ mid ++ mnitem mi <> [] ->
+  length (rbitem rb ++ mid ++ mnitem mi) < f ->
+  cc_items f (rtext rb ++ show_body mid ++ mtext mi ++ ch_rb :: rest) true acc
+  = CCOk false (acc ++ rbitem rb ++ mid ++ mnitem mi) rest.
+Proof.
+  intros Hwf Hne Hf. rewrite !app_length in Hf. destruct rb; cbn [rtext rbitem app length] in *.
+  - destruct f; [lia|]. rewrite cc_first_rb by (now apply body_ok_tail). rewrite cc_body_sfx by (try assumption; lia).
+    now rewrite <- !app_assoc.
+  - destruct mid as [|b mid].
+    + cbn [show_body map concat app length] in *. pose proof (cc_end mi f true acc rest Hf) as H.
+      destruct mi; cbn [andb] in H; [exact H|]. exfalso. now apply Hne.
+    + cbn [forallb] in Hwf. apply andb_true_iff in Hwf as [Hb Hwf]. destruct f; [cbn in Hf; lia|].
+      unfold show_body. cbn [map concat length]. rewrite <- app_assoc. fold (show_body mid).
+      rewrite cc_step by (try assumption; now apply body_ok_tail).
+      rewrite cc_body_sfx by (try assumption; cbn in Hf; lia). now rewrite <- !app_assoc.
+Qed.
+
+Lemma show_shape rb mid mi : show_body (rbitem rb ++ mid ++ mnitem mi) = rtext rb ++ show_body mid ++ mtext mi.
+Proof. now rewrite !show_body_app, show_ritem, show_mitem. Qed.
+
+(* the first character of a well-formed member list, when it does not begin with "]" *)
+Lemma shape_head mid mi rest : forallb wf_bitem mid = true -> mid ++ mnitem mi <> [] ->
+  exists c t, show_body mid ++ mtext mi ++ ch_rb :: rest = c :: t /\ (c =? ch_rb) = false /\
+              first_char (mid ++ mnitem mi) = Some c.
+Proof.
+  intros Hwf Hne. destruct mid as [|b mid].
+  - destruct mi; [|now contradiction Hne]. exists ch_minus. eexists. repeat split; reflexivity.
+  - cbn [forallb] in Hwf. apply andb_true_iff in Hwf as [Hb _].
+    destruct (item_head b Hb) as (c & t & E & Hrb & _). exists c. eexists.
+    unfold show_body. cbn [map concat app first_char]. rewrite E. cbn [app hd_error]. split; [reflexivity|]. split; [exact Hrb|reflexivity].
+Qed.
+
+Lemma text_len rb mid mi : length (rbitem rb ++ mid ++ mnitem mi) <= length (rtext rb ++ show_body mid ++ mtext mi).
+Proof. rewrite !app_length. pose proof (body_len mid). destruct rb, mi; cbn; lia. Qed.
+
 Lemma cc_parse_bracket neg items rest : wf_item (GBr neg items) = true ->
   cc_parse ((if neg then [ch_caret] else []) ++ show_body items ++ ch_rb :: rest) = CCOk neg items rest.
 Proof.
-  cbn [wf_item]. intros H. apply andb_true_iff in H as [Hwf Hfirst].
-  destruct items as [|b items]; [discriminate|]. cbn [first_char] in Hfirst. cbn [forallb] in Hwf.
-  pose proof Hwf as Hwf0. apply andb_true_iff in Hwf as [Hb Hwf].
-  destruct (item_head b Hb) as (c & t & E & Hrb & Hm). rewrite E in Hfirst. cbn [hd_error] in Hfirst.
-  assert (Hcons : show_body (b :: items) ++ ch_rb :: rest = show_bitem b ++ (show_body items ++ ch_rb :: rest)).
-  { unfold show_body. cbn [map concat]. now rewrite <- app_assoc. }
-  pose proof (body_len items) as Hlen.
+  intros H. destruct (wf_bracket_shape neg items H) as (rb & mid & mi & E & Hwf & Hne).
+  cbn [wf_item] in H. apply andb_true_iff in H as [_ Hfirst]. subst items.
+  rewrite show_shape, <- ?app_assoc. pose proof (text_len rb mid mi) as Hlen. rewrite !app_length in Hlen.
+  set (T := rtext rb ++ show_body mid ++ mtext mi ++ ch_rb :: rest).
+  assert (HT : length (rbitem rb ++ mid ++ mnitem mi) < length T).
+  { subst T. rewrite !app_length. cbn [length]. rewrite ?app_length in *. lia. }
   destruct neg.
   - cbn [app]. unfold cc_parse. change (ch_caret =? ch_caret) with true. cbv iota.
-    rewrite Hcons. rewrite cc_step by (try assumption; now apply body_no_minus).
-    rewrite cc_body; [reflexivity|assumption|]. rewrite !app_length. pose proof (show_bitem_len b). cbn [length]. lia.
-  - cbn [app orb] in *. apply andb_true_iff in Hfirst as [_ Hc]. apply neqb_false in Hc.
-    set (X := show_body items ++ ch_rb :: rest) in *.
-    assert (E' : show_bitem b ++ X = c :: (t ++ X)) by (rewrite E; reflexivity).
-    unfold cc_parse. rewrite Hcons, E'. rewrite Hc. rewrite <- E'.
-    subst X. rewrite cc_step by (try assumption; now apply body_no_minus).
-    rewrite cc_body; [reflexivity|assumption|]. rewrite !app_length. cbn [length]. lia.
+    subst T. rewrite cc_list; [reflexivity|exact Hwf|exact Hne|lia].
+  - cbn [app orb] in Hfirst |- *.
+    (* the first character is not "^" *)
+    assert (Hc : exists c t, T = c :: t /\ (c =? ch_caret) = false).
+    { subst T. destruct rb; cbn [rtext rbitem app] in *.
+      - exists ch_rb. eexists. split; reflexivity.
+      - destruct (shape_head mid mi rest Hwf Hne) as (c & t & Ec & _ & Hfc). rewrite Hfc in Hfirst.
+        apply andb_true_iff in Hfirst as [_ Hcar]. exists c, t. split; [exact Ec|now apply neqb_false]. }
+    destruct Hc as (c & t & Ec & Hcar). unfold cc_parse. rewrite Ec, Hcar. rewrite <- Ec.
+    subst T. rewrite cc_list; [reflexivity|exact Hwf|exact Hne|lia].
 Qed.
 
 (* ---- extract_bracket_expr on a well-formed bracket ---- *)
+(* after the optional negation: an optional "]" that is a member, then the scanner *)
+Definition after_neg (e0 s0 : list nat) : br_res :=
+  let '(e1, s1) := match s0 with c :: s' => if c =? ch_rb then (e0 ++ [ch_rb], s') else (e0, s0) | [] => (e0, s0) end in
+  match scan_bracket (S (length s1)) s1 e1 with
+  | None => BrNone
+  | Some (expr, rest) =>
+      match cc_parse (tl expr) with
+      | CCOk _ _ [] => BrOk expr rest
+      | CCOk _ _ _ => BrUnsupported
+      | CCErr => BrNone
+      | CCUnsupported => BrUnsupported
+      end
+  end.
+Lemma extract_bracket_neg c s : ((c =? ch_bang) || (c =? ch_caret)) = true -> extract_bracket (c :: s) = after_neg [ch_lb; ch_caret] s.
+Proof. intros H. unfold extract_bracket, after_neg. now rewrite H. Qed.
+Lemma extract_bracket_pos c s : ((c =? ch_bang) || (c =? ch_caret)) = false -> extract_bracket (c :: s) = after_neg [ch_lb] (c :: s).
+Proof. intros H. unfold extract_bracket, after_neg. now rewrite H. Qed.
+
+Lemma after_neg_ok e0 rb mid mi rest neg' its : forallb wf_bitem mid = true -> rbitem rb ++ mid ++ mnitem mi <> [] ->
+  cc_parse (tl (e0 ++ rtext rb ++ show_body mid ++ mtext mi ++ [ch_rb])) = CCOk neg' its [] ->
+  after_neg e0 (rtext rb ++ show_body mid ++ mtext mi ++ ch_rb :: rest)
+  = BrOk (e0 ++ rtext rb ++ show_body mid ++ mtext mi ++ [ch_rb]) rest.
+Proof.
+  intros Hwf Hne Hcc.
+  assert (Hscan : forall e, scan_bracket (S (length (show_body mid ++ mtext mi ++ ch_rb :: rest))) (show_body mid ++ mtext mi ++ ch_rb :: rest) e
+                            = Some (e ++ show_body mid ++ mtext mi ++ [ch_rb], rest)).
+  { intros e. apply scan_body_sfx; [exact Hwf|apply Nat.lt_succ_diag_r]. }
+  unfold after_neg. destruct rb; cbn [rtext rbitem app] in *.
+  - rewrite Nat.eqb_refl. rewrite Hscan. rewrite <- ?app_assoc. cbn [app]. rewrite <- ?app_assoc in Hcc. cbn [app] in Hcc. now rewrite Hcc.
+  - destruct (shape_head mid mi rest Hwf Hne) as (c & t & Ec & Hrb & _).
+    rewrite Ec at 1. rewrite Hrb. rewrite Hscan. now rewrite Hcc.
+Qed.
+
 Lemma extract_bracket_ok neg items rest : wf_item (GBr neg items) = true ->
   extract_bracket ((if neg then [ch_bang] else []) ++ show_body items ++ ch_rb :: rest)
   = BrOk (tr_item (GBr neg items)) rest.
 Proof.
-  intros Hwf. pose proof (cc_parse_bracket neg items [] Hwf) as Hcc.
-  cbn [wf_item] in Hwf. apply andb_true_iff in Hwf as [Hall Hfirst].
-  destruct items as [|b items]; [discriminate|]. cbn [first_char] in Hfirst. cbn [forallb] in Hall.
-  pose proof Hall as Hall0. apply andb_true_iff in Hall as [Hb Hall].
-  destruct (item_head b Hb) as (c & t & E & Hrb & Hm). rewrite E in Hfirst. cbn [hd_error] in Hfirst.
-  set (B := show_body (b :: items)) in *.
-  assert (EB : exists t', B ++ ch_rb :: rest = c :: t').
-  { subst B. unfold show_body. cbn [map concat]. rewrite E. cbn [app]. eauto. }
-  destruct EB as (t' & EB).
-  assert (Hscan : forall e, scan_bracket (S (length (B ++ ch_rb :: rest))) (B ++ ch_rb :: rest) e = Some (e ++ B ++ [ch_rb], rest)).
-  { intros e. apply scan_body; [exact Hall0|apply Nat.lt_succ_diag_r]. }
-  unfold extract_bracket. destruct neg.
-  - cbn [app]. change ((ch_bang =? ch_bang) || (ch_bang =? ch_caret)) with true. cbv iota.
-    rewrite EB at 1. rewrite Hrb. rewrite Hscan.
-    cbn [app tl tr_item]. cbn [app] in Hcc. rewrite Hcc. reflexivity.
-  - cbn [app orb] in *. apply andb_true_iff in Hfirst as [Hbang Hcaret]. apply neqb_false in Hbang. apply neqb_false in Hcaret.
-    rewrite EB at 1. rewrite Hbang, Hcaret. cbn [orb]. rewrite EB at 1. rewrite Hrb. rewrite Hscan.
-    cbn [app tl tr_item]. rewrite Hcc. reflexivity.
+  intros Hwf0. pose proof (cc_parse_bracket neg items [] Hwf0) as Hcc.
+  destruct (wf_bracket_shape neg items Hwf0) as (rb & mid & mi & E & Hwf & Hne).
+  cbn [wf_item] in Hwf0. apply andb_true_iff in Hwf0 as [_ Hfirst]. subst items.
+  cbn [tr_item]. rewrite show_shape in *. rewrite <- ?app_assoc in *.
+  destruct neg; cbn [app] in *.
+  - rewrite extract_bracket_neg by reflexivity.
+    rewrite (after_neg_ok [ch_lb; ch_caret] rb mid mi rest true (rbitem rb ++ mid ++ mnitem mi)); [reflexivity|exact Hwf|exact Hne|exact Hcc].
+  - assert (Hc : exists c t, rtext rb ++ show_body mid ++ mtext mi ++ ch_rb :: rest = c :: t /\ ((c =? ch_bang) || (c =? ch_caret)) = false).
+    { destruct rb; cbn [rtext rbitem app] in *.
+      - exists ch_rb. eexists. split; reflexivity.
+      - destruct (shape_head mid mi rest Hwf Hne) as (c & t & Ec & _ & Hfc). rewrite Hfc in Hfirst.
+        apply andb_true_iff in Hfirst as [Hb Hcar]. exists c, t. split; [exact Ec|].
+        now rewrite (neqb_false _ _ Hb), (neqb_false _ _ Hcar). }
+    destruct Hc as (c & t & Ec & Hbc). rewrite Ec. rewrite extract_bracket_pos by exact Hbc. rewrite <- Ec.
+    rewrite (after_neg_ok [ch_lb] rb mid mi rest false (rbitem rb ++ mid ++ mnitem mi)); [reflexivity|exact Hwf|exact Hne|exact Hcc].
 Qed.
 
 (* ---- glob_to_regex writes the expected text ---- *)
